@@ -401,6 +401,13 @@ package go9p
 //@   induction j
 //@   trigger nsum(a, o, i), nsum(a, o, j)
 
+//@ lemma nsum_ext(a arr, b arr, o int, i int)
+//@   property C01 C02
+//@   hyp   0 <= i && forall k int :: o <= k && k < o + i ==> a[k] == b[k]
+//@   concl nsum(a, o, i) == nsum(b, o, i)
+//@   induction i
+//@   trigger nsum(a, o, i), nsum(b, o, i)
+
 //@ pure twalksz(w) = 17 + 2*len(w) + nsum(old(elemsof(w)), off(w), len(w))
 //@ pure nameoff(w, k) = 17 + 2*k + nsum(old(elemsof(w)), off(w), k)
 
@@ -450,11 +457,21 @@ package go9p
 // ---------------------------------------------------------------------------
 // Decoding (C02: total on arbitrary bytes; C01: inverse of the constructors)
 
+// decoded stat: like wstat, but the size field is taken as found (the decoder does not validate it)
+//@ pure rstat(b, o, d, dotu) = u16le(b, o) == d.Size && u16le(b, o+2) == d.Type && u32le(b, o+4) == d.Dev
+//@      && wqid(b, o+8, d.Qid) && u32le(b, o+21) == d.Mode && u32le(b, o+25) == d.Atime && u32le(b, o+29) == d.Mtime
+//@      && u64le(b, o+33) == d.Length && wstr(b, o+41, d.Name) && wstr(b, o+43+len(d.Name), d.Uid)
+//@      && wstr(b, o+45+len(d.Name)+len(d.Uid), d.Gid) && wstr(b, o+47+len(d.Name)+len(d.Uid)+len(d.Gid), d.Muid)
+//@      && (dotu ==> wstr(b, o+49+nl(d), d.Ext) && u32le(b, o+51+nl(d)+len(d.Ext)) == d.Uidnum
+//@                   && u32le(b, o+55+nl(d)+len(d.Ext)) == d.Gidnum && u32le(b, o+59+nl(d)+len(d.Ext)) == d.Muidnum)
+
 //@ func gstat(buf, d, dotu) (r, err)
 //@   property C01 C02 C06
 //@   requires d != nil
 //@   ensures  err != nil ==> r == nil
 //@   ensures  err == nil ==> len(r) <= len(buf) && r == buf[len(buf)-len(r):]
+//@   ensures  [dec] err == nil ==> rstat(buf, 0, d, dotu) && len(buf) - len(r) == statsize(d, dotu)
+//@   ensures  [dec.nodotu] err == nil && !dotu ==> d.Uidnum == 4294967295 && d.Gidnum == 4294967295 && d.Muidnum == 4294967295
 //@   ensures  err == nil ==> len(d.Name) <= 65535 && len(d.Uid) <= 65535 && len(d.Gid) <= 65535 && len(d.Muid) <= 65535 && (dotu ==> len(d.Ext) <= 65535)
 //@   ensures  !dotu ==> d.Ext == old(d.Ext)
 //@   assigns  all(d)
@@ -463,22 +480,84 @@ package go9p
 //@   property C01 C02 C15
 //@   ensures  err != nil ==> d == nil && b == nil && amt == 0
 //@   ensures  err == nil ==> d != nil && fresh(d) && 0 <= amt && amt <= len(buf) && b == buf[amt:] && strsok(d)
+//@   ensures  [dec] err == nil ==> rstat(buf, 0, d, dotu) && amt == statsize(d, dotu)
 //@   assigns  fresh
 
+//@ pure hdrok(buf) = len(buf) >= 7 && 7 <= u32le(buf, 0) && u32le(buf, 0) <= len(buf)
 //@ pure within(p, buf, n) = obj(p) == obj(buf) && off(buf) <= off(p) && off(p) + len(p) <= off(buf) + n
 
 //@ func Unpack(buf, dotu) (fc, fcsz, err)
 //@   property C02 C06 C01
+//@   uses nsum_ext nsum_nonneg nsum_mono
 //@   ensures  err != nil ==> fc == nil && fcsz == 0
 //@   ensures  err == nil ==> fc != nil && fresh(fc) && fcsz == u32le(buf, 0) && 7 <= fcsz && fcsz <= len(buf)
 //@   ensures  err == nil ==> fc.Size == fcsz && fc.Type == u8(buf, 4) && fc.Tag == u16le(buf, 5) && fc.Pkt == buf[0:fcsz]
 //@   ensures  err == nil ==> 100 <= fc.Type && fc.Type <= 127 && fc.Type != 106
+//@   property C01 C02
+//@   at make([]string) requires [alloc.Twalk] arg0 * 2 <= len(buf)
+//@   at make([]Qid) requires [alloc.Rwalk] arg0 * 13 <= len(buf)
+//@   ensures  [acc.short] len(buf) < 7 || u32le(buf, 0) < 7 || u32le(buf, 0) > len(buf) || u8(buf, 4) < 100 || u8(buf, 4) > 127 || u8(buf, 4) == 106 ==> err != nil
+//@   ensures  [acc.version] hdrok(buf) && (u8(buf, 4) == 100 || u8(buf, 4) == 101) ==> (err == nil <==> u32le(buf, 0) >= 13 && u32le(buf, 0) == 13 + u16le(buf, 11))
+//@   ensures  [acc.Tauth] hdrok(buf) && u8(buf, 4) == 102 && u32le(buf, 0) >= 15 && 15 + u16le(buf, 11) <= u32le(buf, 0)
+//@            && u32le(buf, 0) == 15 + u16le(buf, 11) + u16le(buf, 13 + u16le(buf, 11)) + ite(dotu, 4, 0) ==> err == nil
+//@   ensures  [acc.Tattach] hdrok(buf) && u8(buf, 4) == 104 && u32le(buf, 0) >= 19 && 19 + u16le(buf, 15) <= u32le(buf, 0)
+//@            && u32le(buf, 0) == 19 + u16le(buf, 15) + u16le(buf, 17 + u16le(buf, 15)) + ite(dotu, 4, 0) ==> err == nil
+//@   ensures  [acc.Rqid] hdrok(buf) && (u8(buf, 4) == 103 || u8(buf, 4) == 105) ==> (err == nil <==> u32le(buf, 0) == 20)
+//@   ensures  [acc.Rerror] hdrok(buf) && u8(buf, 4) == 107 ==> (err == nil <==> u32le(buf, 0) >= 9 + ite(dotu, 4, 0) && u32le(buf, 0) == 9 + u16le(buf, 7) + ite(dotu, 4, 0))
+//@   ensures  [acc.Tflush] hdrok(buf) && u8(buf, 4) == 108 ==> (err == nil <==> u32le(buf, 0) == 9)
+//@   ensures  [acc.empty] hdrok(buf) && (u8(buf, 4) == 109 || u8(buf, 4) == 121 || u8(buf, 4) == 123 || u8(buf, 4) == 127) ==> (err == nil <==> u32le(buf, 0) == 7)
+//@   ensures  [acc.Topen] hdrok(buf) && u8(buf, 4) == 112 ==> (err == nil <==> u32le(buf, 0) == 12)
+//@   ensures  [acc.Ropen] hdrok(buf) && (u8(buf, 4) == 113 || u8(buf, 4) == 115) ==> (err == nil <==> u32le(buf, 0) == 24)
+//@   ensures  [acc.Tcreate] hdrok(buf) && u8(buf, 4) == 114 && !dotu ==> (err == nil <==> u32le(buf, 0) >= 18 && u32le(buf, 0) == 18 + u16le(buf, 11))
+//@   ensures  [acc.Tcreateu] hdrok(buf) && u8(buf, 4) == 114 && dotu && u32le(buf, 0) >= 20 && 20 + u16le(buf, 11) <= u32le(buf, 0)
+//@            && u32le(buf, 0) == 20 + u16le(buf, 11) + u16le(buf, 18 + u16le(buf, 11)) ==> err == nil
+//@   ensures  [acc.Tread] hdrok(buf) && u8(buf, 4) == 116 ==> (err == nil <==> u32le(buf, 0) == 23)
+//@   ensures  [acc.Rread] hdrok(buf) && u8(buf, 4) == 117 ==> (err == nil <==> u32le(buf, 0) >= 11 && u32le(buf, 0) == 11 + u32le(buf, 7))
+//@   ensures  [acc.Twrite] hdrok(buf) && u8(buf, 4) == 118 ==> (err == nil <==> u32le(buf, 0) >= 23 && u32le(buf, 0) == 23 + u32le(buf, 19))
+//@   ensures  [acc.Rwrite] hdrok(buf) && u8(buf, 4) == 119 ==> (err == nil <==> u32le(buf, 0) == 11)
+//@   ensures  [acc.Tfid] hdrok(buf) && (u8(buf, 4) == 120 || u8(buf, 4) == 122 || u8(buf, 4) == 124) ==> (err == nil <==> u32le(buf, 0) == 11)
+//@   ensures  [acc.Rwalk] hdrok(buf) && u8(buf, 4) == 111 ==> (err == nil <==> u32le(buf, 0) >= 9 && u32le(buf, 0) == 9 + 13 * u16le(buf, 7))
+//@   ensures  [dec.version] err == nil && (fc.Type == 100 || fc.Type == 101) ==> fc.Msize == u32le(buf, 7) && wstr(buf, 11, fc.Version) && fcsz == 13 + len(fc.Version) && len(fc.Version) <= 65535
+//@   ensures  [dec.Tauth] err == nil && fc.Type == 102 ==> fc.Afid == u32le(buf, 7) && wstr(buf, 11, fc.Uname) && wstr(buf, 13+len(fc.Uname), fc.Aname)
+//@            && len(fc.Uname) <= 65535 && len(fc.Aname) <= 65535
+//@            && ((dotu && fcsz == 19+len(fc.Uname)+len(fc.Aname) && fc.Unamenum == u32le(buf, 15+len(fc.Uname)+len(fc.Aname)))
+//@                || (fcsz == 15+len(fc.Uname)+len(fc.Aname) && fc.Unamenum == 4294967295))
+//@   ensures  [dec.Tattach] err == nil && fc.Type == 104 ==> fc.Fid == u32le(buf, 7) && fc.Afid == u32le(buf, 11) && wstr(buf, 15, fc.Uname) && wstr(buf, 17+len(fc.Uname), fc.Aname)
+//@            && len(fc.Uname) <= 65535 && len(fc.Aname) <= 65535
+//@            && ((dotu && fcsz == 23+len(fc.Uname)+len(fc.Aname) && fc.Unamenum == u32le(buf, 19+len(fc.Uname)+len(fc.Aname)))
+//@                || fcsz == 19+len(fc.Uname)+len(fc.Aname))
+//@   ensures  [dec.Rqid] err == nil && (fc.Type == 103 || fc.Type == 105) ==> wqid(buf, 7, fc.Qid) && fcsz == 20
+//@   ensures  [dec.Rerror] err == nil && fc.Type == 107 ==> wstr(buf, 7, fc.Error) && len(fc.Error) <= 65535
+//@            && (dotu ==> fcsz == 13+len(fc.Error) && fc.Errornum == u32le(buf, 9+len(fc.Error))) && (!dotu ==> fcsz == 9+len(fc.Error) && fc.Errornum == 0)
+//@   ensures  [dec.Tflush] err == nil && fc.Type == 108 ==> fc.Oldtag == u16le(buf, 7) && fcsz == 9
+//@   ensures  [dec.empty] err == nil && (fc.Type == 109 || fc.Type == 121 || fc.Type == 123 || fc.Type == 127) ==> fcsz == 7
+//@   ensures  [dec.Topen] err == nil && fc.Type == 112 ==> fc.Fid == u32le(buf, 7) && fc.Mode == u8(buf, 11) && fcsz == 12
+//@   ensures  [dec.Ropen] err == nil && (fc.Type == 113 || fc.Type == 115) ==> wqid(buf, 7, fc.Qid) && fc.Iounit == u32le(buf, 20) && fcsz == 24
+//@   ensures  [dec.Tcreate] err == nil && fc.Type == 114 ==> fc.Fid == u32le(buf, 7) && wstr(buf, 11, fc.Name) && len(fc.Name) <= 65535
+//@            && fc.Perm == u32le(buf, 13+len(fc.Name)) && fc.Mode == u8(buf, 17+len(fc.Name))
+//@            && (dotu ==> wstr(buf, 18+len(fc.Name), fc.Ext) && len(fc.Ext) <= 65535 && fcsz == 20+len(fc.Name)+len(fc.Ext)) && (!dotu ==> fcsz == 18+len(fc.Name))
+//@   ensures  [dec.Tread] err == nil && fc.Type == 116 ==> fc.Fid == u32le(buf, 7) && fc.Offset == u64le(buf, 11) && fc.Count == u32le(buf, 19) && fcsz == 23
+//@   ensures  [dec.Rread] err == nil && fc.Type == 117 ==> fc.Count == u32le(buf, 7) && fcsz == 11 + fc.Count && fc.Data == buf[11:fcsz]
+//@   ensures  [dec.Twrite] err == nil && fc.Type == 118 ==> fc.Fid == u32le(buf, 7) && fc.Offset == u64le(buf, 11) && fc.Count == u32le(buf, 19) && fcsz == 23 + fc.Count && fc.Data == buf[23:fcsz]
+//@   ensures  [dec.Rwrite] err == nil && fc.Type == 119 ==> fc.Count == u32le(buf, 7) && fcsz == 11
+//@   ensures  [dec.Tfid] err == nil && (fc.Type == 120 || fc.Type == 122 || fc.Type == 124) ==> fc.Fid == u32le(buf, 7) && fcsz == 11
+//@   ensures  [dec.Rstat] err == nil && fc.Type == 125 ==> rstat(buf, 9, fc.Dir, dotu) && fcsz == 9 + statsize(fc.Dir, dotu) && strsok(fc.Dir)
+//@   ensures  [dec.Twstat] err == nil && fc.Type == 126 ==> fc.Fid == u32le(buf, 7) && rstat(buf, 13, fc.Dir, dotu) && fcsz == 13 + statsize(fc.Dir, dotu) && strsok(fc.Dir)
+//@   ensures  [dec.Twalkhdr] err == nil && fc.Type == 110 ==> fc.Fid == u32le(buf, 7) && fc.Newfid == u32le(buf, 11) && len(fc.Wname) == u16le(buf, 15)
+//@   ensures  [dec.Twalksz] err == nil && fc.Type == 110 ==> off(fc.Wname) == 0 && fcsz == 17 + 2*len(fc.Wname) + nsum(elemsof(fc.Wname), 0, len(fc.Wname))
+//@   ensures  [dec.Twalknames] err == nil && fc.Type == 110 ==> forall k int :: 0 <= k && k < len(fc.Wname) ==> wstr(buf, 17 + 2*k + nsum(elemsof(fc.Wname), 0, k), fc.Wname[k]) && len(fc.Wname[k]) <= 65535
+//@   ensures  [dec.Rwalk] err == nil && fc.Type == 111 ==> len(fc.Wqid) == u16le(buf, 7) && fcsz == 9 + 13*len(fc.Wqid)
+//@   ensures  [dec.Rwalkq] err == nil && fc.Type == 111 ==> forall k int :: 0 <= k && k < len(fc.Wqid) ==> wqid(buf, 9+13*k, fc.Wqid[k])
 //@   assigns  fresh
 //@   loop 1
 //@     invariant fc != nil && 0 <= i && i <= m && len(fc.Wname) == m && fresh(fc.Wname) && fc.Type == 110
 //@     invariant len(buf) >= 7 && 7 <= fc.Size && fc.Size <= len(buf) && fc.Size == u32le(buf, 0) && fcsz == fc.Size && fc.Pkt == buf[0:fc.Size]
-//@     invariant p != nil && within(p, buf, fc.Size) && others_unchanged(fc.Wname)
+//@     invariant p != nil && within(p, buf, fc.Size) && others_unchanged(fc.Wname) && off(fc.Wname) == 0 && m == u16le(buf, 15)
+//@     invariant obj(p) == obj(buf) && off(p) == off(buf) + 17 + 2*i + nsum(elemsof(fc.Wname), 0, i) && len(p) == fc.Size - 17 - 2*i - nsum(elemsof(fc.Wname), 0, i)
+//@     invariant forall k int :: 0 <= k && k < i ==> wstr(buf, 17 + 2*k + nsum(elemsof(fc.Wname), 0, k), fc.Wname[k]) && len(fc.Wname[k]) <= 65535
 //@   loop 2
 //@     invariant fc != nil && 0 <= i && i <= m && len(fc.Wqid) == m && fresh(fc.Wqid) && fc.Type == 111
 //@     invariant len(buf) >= 7 && 7 <= fc.Size && fc.Size <= len(buf) && fc.Size == u32le(buf, 0) && fcsz == fc.Size && fc.Pkt == buf[0:fc.Size]
 //@     invariant p != nil && within(p, buf, fc.Size) && others_unchanged(fc.Wqid) && len(p) >= 13 * (m - i)
+//@     invariant obj(p) == obj(buf) && off(p) == off(buf) + 9 + 13*i && len(p) == fc.Size - 9 - 13*i && m == u16le(buf, 7)
+//@     invariant forall k int :: 0 <= k && k < i ==> wqid(buf, 9+13*k, fc.Wqid[k])
